@@ -14,6 +14,7 @@ import (
 	"strconv"
 	"strings"
 	"sync"
+	"sync/atomic"
 	"time"
 )
 
@@ -323,6 +324,8 @@ var solvers = map[string]solverSpec{
 // ground terms (+ off (+ k 1)); measured: 20 s timeout -> 0.02 s with flattening off.
 const z3Pre = "(set-option :rewriter.flat false)\n"
 
+var qcounter int64
+
 var scratchDir string
 var scratchOnce sync.Once
 
@@ -350,7 +353,7 @@ func cleanupScratch() {
 func runOne(parent context.Context, name, query string, timeoutS float64, wantModel bool) SolverResult {
 	sp := solvers[name]
 	h := sha256.Sum256([]byte(name + query))
-	file := filepath.Join(scratch(), fmt.Sprintf("q-%x-%s.smt2", h[:8], name))
+	file := filepath.Join(scratch(), fmt.Sprintf("q-%x-%d-%s.smt2", h[:8], atomic.AddInt64(&qcounter, 1), name))
 	body := sp.pre
 	if name == "cvc5" && wantModel {
 		body = "(set-option :produce-models true)\n" + body
